@@ -1000,8 +1000,15 @@ func c13BuildTar(nodes []c13Node, sorted bool) ([]byte, []int, error) {
 
 // rootless: the members of the root directory only, named without a leading "./" (a stream as
 // `tar c *` writes it; meant for --tar-add-root)
-func c13BuildTarOpt(nodes []c13Node, sorted, rootless bool) ([]byte, []int, error) {
+// deferIdx (optional): a non-directory node whose member is written at the END of the stream
+// instead of inside its directory (a stream that is not grouped by directory: `tar -r`).
+func c13BuildTarOpt(nodes []c13Node, sorted, rootless bool, deferIdx ...int) ([]byte, []int, error) {
 	var emitted []int
+	deferred := -1
+	if len(deferIdx) > 0 {
+		deferred = deferIdx[0]
+	}
+	inDeferred := false
 	kids := map[string][]int{}
 	for i := range nodes {
 		if len(nodes[i].Path) == 0 {
@@ -1015,6 +1022,9 @@ func c13BuildTarOpt(nodes []c13Node, sorted, rootless bool) ([]byte, []int, erro
 	var emit func(i int) error
 	emit = func(i int) error {
 		n := &nodes[i]
+		if i == deferred && !inDeferred && n.Type != "dir" {
+			return nil // written after everything else
+		}
 		emitted = append(emitted, i)
 		name := "./" + c13unhexRaw(n.Path)
 		if rootless {
@@ -1080,6 +1090,12 @@ func c13BuildTarOpt(nodes []c13Node, sorted, rootless bool) ([]byte, []int, erro
 	}
 	if err := emit(0); err != nil {
 		return nil, nil, err
+	}
+	if deferred > 0 && nodes[deferred].Type != "dir" {
+		inDeferred = true
+		if err := emit(deferred); err != nil {
+			return nil, nil, err
+		}
 	}
 	if err := tw.Close(); err != nil {
 		return nil, nil, err
